@@ -33,7 +33,7 @@ ASSUMPTIONS = [
 ] + c01.ASSUMPTIONS[:2]
 WALL_CAP = c01.WALL_CAP
 
-NAMES = ["a", "é", "☃", "a_\udce4"]
+NAMES = ["a", "é", "☃", "a_\udce4", "e\u0301"]  # precomposed and decomposed e-acute are different names
 
 
 def check_paths(evs, given, names, burst, state, who=""):
